@@ -163,7 +163,16 @@ class ListDecode:
 # The children are a heap region of symbolic size (any element count, no case split): child k has the bytes g_enc[k] of
 # length g_len[k]; the encoding is the L header followed by the children's bytes at the offsets given by the prefix sums
 # of the lengths.
-KIDS = Region("children", AbsVar, g_enc=Bytes(), g_len=Int)
+def sample_kids(rnd):
+    """native samples for the cross-check / run-time reading: 0..6 children with arbitrary short encodings"""
+    out = []
+    for _ in range(rnd.choice((0, 1, 2, 3, 6))):
+        enc = bytes(rnd.getrandbits(8) for _ in range(rnd.choice((0, 1, 2, 5))))
+        out.append({"g_enc": enc, "g_len": len(enc), "g_from": -1, "g_to": -1})
+    return out
+
+
+KIDS = Region("children", AbsVar, sampler=sample_kids, g_enc=Bytes(), g_len=Int)
 
 
 def kids_ok(data):
